@@ -546,6 +546,18 @@ class Body:
                 out["consts"].add(t[1])
             elif k == "agg":
                 out["aggs"].add((t[1], t[2]))
+            elif k == "closure":
+                # what a closure computes also flows into the value built from it (`.then(|| f(x))`, `.map(|v| g(v))`):
+                # include the closure body's own calls / constants / field reads; its captures are walked as part of the term
+                cb = getattr(self, "prog", None) and self.prog.bodies.get(t[1])
+                if cb is not None and ("closure", t[1]) not in _seen and depth > 0:
+                    _seen.add(("closure", t[1]))
+                    for c in cb.calls():
+                        out["calls"].add(c.name)
+                        for a in c.args:
+                            r = cb.provenance(cb.operand_term(a), depth - 1, set())
+                            for kk in ("fields", "calls", "consts", "aggs"):
+                                out[kk] |= r[kk]
             elif k == "local":
                 l = t[1]
                 out["locals"].add(t[2])
@@ -799,6 +811,7 @@ class Program:
                 continue
             if k == "body":
                 b = Body(r)
+                b.prog = self
                 # bins and lib may both define `main`-like paths; key by (crate-prefixed) def path
                 self.bodies[b.defpath] = b
                 self.bodies_raw[r["def"]] = b
